@@ -370,7 +370,7 @@ def _merge_slices(fields):
     out = []
     # faster than np.any([rmin, rmax, cmin, cmax])
     if rmin == 0 and rmax == 0 and cmin == 0 and cmax == 0:
-        out.append(Ellipsis)
+        out = [Ellipsis for field in fields]
     else:
         for field in fields:
             frmin, frmax, fcmin, fcmax = field.extent
